@@ -403,7 +403,33 @@ def rule_M3(ctx) -> None:
     hcalls = [c for c in ast.walk(lf) if isinstance(c, ast.Call) and isinstance(c.func, ast.Name) and c.func.id in helpers]
     for c in hcalls:
         ctx.proved("M3", f"load_fields:{ast.unparse(c)}", mod.loc(c), f"{c.func.id} raises unless it read exactly the requested number of bytes")
-    ctx.floor("M3", "stream reads in load_fields", len(res) + len(hcalls), 3)
+    # every wire type that carries a payload of known length gets it through a checked read, however many read sites serve them
+    guarded_lines = {r["line"] for r in res if r["guarded"]}
+    covered = 0
+    for w in (1, 2, 5):
+        paths = _reader_paths(ctx, mod, "load_fields", w)
+        reads_ok = []
+        for p in paths:
+            if not any(e.kind == "yield" for e in p.events):
+                continue
+            for e in p.events:
+                if e.kind != "call":
+                    continue
+                nm = dotted(e.data[1])
+                if nm in helpers:
+                    reads_ok.append(True)
+                elif nm.endswith(".read") and e.data[2] and e.data[2][0] != C(1):
+                    reads_ok.append(e.line in guarded_lines)
+        name = f"load_fields:payload[wire {w}]"
+        if not reads_ok:
+            ctx.inconclusive("M3", name, "no payload read found on the yielding paths", mod.loc(lf))
+        elif all(reads_ok):
+            covered += 1
+            ctx.proved("M3", name, mod.loc(lf), f"{len(reads_ok)} checked reads")
+        else:
+            ctx.refuted("M3", name, "unchecked", mod.loc(lf), f"the payload of wire type {w} is taken with a read whose length is not verified: a truncated payload is decoded as a shorter value",
+                        "M().parse(bytes(M(s='hello'))[:-2])")
+    ctx.floor("M3", "payload-carrying wire types with a read in load_fields", covered + sum(1 for r in res if not r["guarded"]), 3)
     for r in res:
         name = f"load_fields:read({r['n']})"
         if r["guarded"]:
@@ -468,7 +494,7 @@ def rule_M3b(ctx) -> None:
                             clean.add(ast.unparse(h.type))
     if not clean:
         # no exception-based signal: the generator may only end under an emptiness test of the iteration's first read
-        paths = Interp(mod, fresh_calls=["read", "load_varint", "decode_varint"] + list(exact_readers(mod))).run(lf)
+        paths = Interp(mod, fresh_calls=["read", "load_varint", "decode_varint"] + list(exact_readers(mod)), fork_while=True).run(lf)
         ctx.count(len(paths))
         ends = [p for p in paths if p.outcome in ("return", "fall") and not any(e.kind == "yield" for e in p.events)]
         if not ends:
@@ -718,6 +744,11 @@ def rule_N5(ctx, rule: str = "N5") -> None:
                     base = base[2]
                 if base[0] == "op" and base[1] == "&" and C(0x80) in base[2:]:
                     conts.append((n, neg))
+                elif base[0] == "op" and base[1] == "==" and len(base) == 4 and any(x[0] == "op" and x[1] == "&" and C(0x80) in x[2:] for x in base[2:]) \
+                        and any(x in (C(0), C(0x80)) for x in base[2:]):
+                    # (b & 0x80) == 0: true means clear;  (b & 0x80) == 0x80: true means set
+                    clear_when_true = C(0) in base[2:]
+                    conts.append((n, clear_when_true != neg))
                 elif base[0] == "op" and base[1] in ("<", "==") and any(x[0] == "op" and x[1] == "&" and C(0x80) in x[2:] for x in base[2:]):
                     conts.append((n, None))
         loops = [n for n in ast.walk(fn) if isinstance(n, (ast.For, ast.While))]
@@ -787,7 +818,10 @@ def rule_U1(ctx) -> None:
                 if raw is None and len(y.data[2]) >= 4:
                     raw = y.data[2][3]
             consumed = []
-            for e in p.events:
+            # what was consumed *for this field*: reads after the yield belong to the next field (a reader may look at the next tag
+            # byte only once the consumer asks for another field)
+            upto = p.events.index(y)
+            for e in p.events[:upto]:
                 if e.kind != "call" or e.depth:
                     continue
                 nm = dotted(e.data[1])
